@@ -12,6 +12,9 @@
  *     -h K         hold the calling thread at the entry of the K-th counted call, run the
  *                  -r command to completion (other threads keep running), then resume it
  *     -r CMD       shell command for -h
+ *     -f K:ERRNO   make the K-th counted call FAIL with errno ERRNO without executing it
+ *                  (fault injection: the call number is replaced by an invalid one at the
+ *                  entry and the result by -ERRNO at the exit)
  *     -l FILE      log every counted call: "<n> <pid> <name> <detail>"
  *     -o FILE      write the total number of counted calls (and "killed"/"held" notes)
  *   exit status: that of cmd; 137 when killed by -k.
@@ -31,6 +34,7 @@
 #include <sys/syscall.h>
 #include <sys/types.h>
 #include <sys/uio.h>
+#include <sys/user.h>
 #include <sys/wait.h>
 #include <unistd.h>
 #include <linux/ptrace.h>
@@ -38,7 +42,7 @@
 static const char *prefixes[4];
 static int nprefix;
 static int cls_f, cls_s, cls_p;
-static long kill_at = -1, hold_at = -1;
+static long kill_at = -1, hold_at = -1, fail_at = -1, fail_errno = 0;
 static const char *run_cmd, *log_path, *out_path;
 static FILE *logf;
 static long counted;
@@ -215,6 +219,11 @@ int main(int argc, char **argv) {
 		else if (!strcmp(argv[i], "-k") && i + 1 < argc) kill_at = atol(argv[++i]);
 		else if (!strcmp(argv[i], "-h") && i + 1 < argc) hold_at = atol(argv[++i]);
 		else if (!strcmp(argv[i], "-r") && i + 1 < argc) run_cmd = argv[++i];
+		else if (!strcmp(argv[i], "-f") && i + 1 < argc) {
+			char *c = strchr(argv[++i], ':');
+			fail_at = atol(argv[i]);
+			fail_errno = c ? atol(c + 1) : 5;
+		}
 		else if (!strcmp(argv[i], "-l") && i + 1 < argc) log_path = argv[++i];
 		else if (!strcmp(argv[i], "-o") && i + 1 < argc) out_path = argv[++i];
 		else { fprintf(stderr, "sysstop: bad option %s\n", argv[i]); return 2; }
@@ -238,7 +247,7 @@ int main(int argc, char **argv) {
 	if (ptrace(PTRACE_SETOPTIONS, child, 0, opts) < 0) { perror("PTRACE_SETOPTIONS"); return 2; }
 	ptrace(PTRACE_SYSCALL, child, 0, 0);
 
-	pid_t helper = -1, held = -1;
+	pid_t helper = -1, held = -1, failing = -1;
 	int exit_status = 0, root_done = 0;
 	for (;;) {
 		pid_t pid = waitpid(-1, &status, __WALL);
@@ -265,7 +274,19 @@ int main(int argc, char **argv) {
 		if (sig == (SIGTRAP | 0x80)) {
 			struct ptrace_syscall_info si;
 			memset(&si, 0, sizeof si);
-			if (ptrace(PTRACE_GET_SYSCALL_INFO, pid, sizeof si, &si) > 0 && si.op == PTRACE_SYSCALL_INFO_ENTRY) {
+			long got = ptrace(PTRACE_GET_SYSCALL_INFO, pid, sizeof si, &si);
+			if (got > 0 && si.op == PTRACE_SYSCALL_INFO_EXIT && pid == failing) {
+				/* exit of the call that was turned into an invalid one: plant the error */
+				struct user_regs_struct regs;
+				if (ptrace(PTRACE_GETREGS, pid, 0, &regs) == 0) {
+					regs.rax = (unsigned long long)(-fail_errno);
+					ptrace(PTRACE_SETREGS, pid, 0, &regs);
+				}
+				failing = -1;
+				ptrace(PTRACE_SYSCALL, pid, 0, 0);
+				continue;
+			}
+			if (got > 0 && si.op == PTRACE_SYSCALL_INFO_ENTRY) {
 				const char *name = "";
 				char detail[9000];
 				if (classify(pid, &si, &name, detail, sizeof detail)) {
@@ -274,6 +295,14 @@ int main(int argc, char **argv) {
 					if (counted == kill_at) {
 						/* leaving kills every tracee (PTRACE_O_EXITKILL) before the call executes */
 						finish("killed", 137);
+					}
+					if (counted == fail_at) {
+						struct user_regs_struct regs;
+						if (ptrace(PTRACE_GETREGS, pid, 0, &regs) == 0) {
+							regs.orig_rax = (unsigned long long)-1; /* no such call: the kernel skips it */
+							ptrace(PTRACE_SETREGS, pid, 0, &regs);
+							failing = pid;
+						}
 					}
 					if (counted == hold_at && run_cmd) {
 						helper = fork();
